@@ -80,7 +80,9 @@ def pit_cases(draw):
             'full_cost': draw(st.booleans()), 'fold_bn': draw(st.booleans()),
             'wseed': draw(st.integers(0, 30)), 'pseed': draw(st.integers(0, 10 ** 6)),
             'vseed': draw(st.integers(0, 10 ** 6)),
-            'mode': draw(st.sampled_from(['uniform', 'uniform', 'low', 'binary']))}
+            'mode': draw(st.sampled_from(['uniform', 'uniform', 'low', 'binary'])),
+            # the same specification is assigned again while the masks are partly closed
+            'reassign': draw(st.booleans())}
 
 
 def pit_values(pit, vseed, mode, tag):
@@ -122,6 +124,17 @@ def oracle_pit(case) -> Result:
     def get(name):
         return pit.get_cost(name) if case['dict'] else pit.cost
 
+    # the cost is a function of the architectural parameters only: the values read now, with
+    # every mask open, must come back when the masks are opened again at the end of the case
+    open_vals = {n: p.detach().clone() for n, p in pit.named_nas_parameters()}
+    open_costs = {}
+    for name in names:
+        for disc in (False, True):
+            pit.discrete_cost = disc
+            c0 = must(res, 'cost', get, name)
+            if c0 is None:
+                return res
+            open_costs[(name, disc)] = float(c0)
     # all masks open -> cost of the original model (hardware-independent metrics)
     for name in names:
         if name.startswith('gap8'):
@@ -152,6 +165,11 @@ def oracle_pit(case) -> Result:
     trainable = [(n, p) for n, p in pit.named_nas_parameters()
                  if p.requires_grad and id(p) not in frozen_ids]
     checked_fd = 0
+    reassign = bool(case.get('reassign')) or any(ng.is_dw(n) for n in spec['nodes'])
+    if reassign:
+        # (always when a depthwise layer is present: its pattern constraint reads channel counts)
+        pit_set(pit, vals)
+        pit.cost_specification = cost
     for name in names:
         for disc in (False, True):
             pit.discrete_cost = disc
@@ -239,8 +257,20 @@ def oracle_pit(case) -> Result:
                         smaller=snap, larger=cq)
             if res.discrepancies:
                 return res
+    pit_set(pit, open_vals)
+    for (name, disc), want in open_costs.items():
+        pit.discrete_cost = disc
+        c1 = must(res, 'cost', get, name)
+        if c1 is None:
+            return res
+        if float(c1) != want:
+            res.bad('cost-with-the-masks-opened-again-differs-from-the-first-reading', metric=name,
+                    discrete=disc, first=want, now=float(c1),
+                    specification_reassigned=reassign)
+            return res
     res.nontrivial = bool(trainable)
     res.ev(*[f"metric:{n}" for n in names], 'mode:' + case['mode'],
+           'spec-reassigned-on-closed-masks' if reassign else 'spec-assigned-once',
            'full_cost' if case['full_cost'] else 'nas_cost', *ng.spec_features(spec))
     res.obs = {'finite_difference_probes': checked_fd, 'trainable_mask_tensors': len(trainable)}
     return res
@@ -543,7 +573,7 @@ CHECK = Check(
     prop='C12',
     parts=[
         Part('pit', oracle_pit, strategy=pit_cases(),
-             budget={'quick': 120, 'thorough': 600}, shards={'quick': 1, 'thorough': 16}),
+             budget={'quick': 200, 'thorough': 600}, shards={'quick': 1, 'thorough': 16}),
         Part('supernet', oracle_sn, strategy=sn_cases(),
              budget={'quick': 80, 'thorough': 400}, shards={'quick': 1, 'thorough': 16}),
         Part('mps', oracle_mps, strategy=mps_cases(),
